@@ -802,7 +802,12 @@ package kcp
 //
 // Listener.packetInput is verified in sequential mode for its own effects (C06, C11): the
 // assertions below are evaluated in its frame immediately before the named calls.
+// (C11) The listener's single receive goroutine never parks in the hand-over to Accept: only
+// packetInput sends on chAccepts (Accept callers can only take), so a length it has seen is an
+// upper bound until its own next send, and the send happens only with room known to be left.
+//@ soleproducer Listener.packetInput: Listener.chAccepts
 //@ func Listener.packetInput
+//@   callsite chan:Listener.chAccepts requires @C11 [a-new-session-is-handed-to-accept-only-when-the-backlog-has-room] room(l.chAccepts)
 //@   requires l.imm() && len(data) <= 1500 && addr != nil
 //@   requires forall k string :: in(l.sessions, k) ==> ref(l.sessions[k].kcp.buffer) != ref(data)
 //@   modifies everything
